@@ -6,16 +6,13 @@
    any stats snapshot and any Accounting-Response outcome, process restarts, orphan prunes.  Its trace pairs every
    notification with the provider calls ISSUED (Start / Interim c ok / Stop c).  [drun] adds asynchronous delivery:
    the calls that ARRIVE at the provider when Start calls may be delayed.
-   Variants:  [V fs fo fl fp] = the code with the first three repairs, fix_ghost, plus any subset of fix_sent, fix_order,
-              fix_l2stop, fix_prune;  [Vg ...] = the same without fix_ghost;
-              [head] = Vg true false true true = /repo HEAD (committed: 7e92d8e, e0693a6, d70a5ae, 9b87063, d95fed1, 7faf7f9).
-              Two findings are not repaired in /repo: fix_order (provider calls sent from unordered goroutines; no patch,
-              RepairSpec.v is the specification of that repair) and fix_ghost (a late Accounting-Response re-creates the
-              checkpoint of a session released meanwhile; fixes/C09_no_ghost_checkpoint.patch).
-              The theorems below are stated for V (fix_ghost); C09_head_without_late_response transfers every one of them
-              to /repo HEAD for all histories in which no such late response occurs ([no_late evs]) - exactly the
-              histories excluded by the fix_ghost finding (C09_ghost_checkpoint_refuted).
-              [repaired] = V true true true true;  [before_7faf7f9], [before_9b87063], [defective] are historical.
+   Variants:  [V fs fo fl fp] = the code with the first three repairs and fix_ghost, plus any subset of fix_sent, fix_order,
+              fix_l2stop, fix_prune;  [Vg ...] = the same without fix_ghost (historical);
+              [head] = V true false true true = /repo HEAD (committed: 7e92d8e, e0693a6, d70a5ae, 9b87063, d95fed1, 7faf7f9,
+              5478db8).  The one finding not repaired in /repo is fix_order (provider calls sent from unordered goroutines;
+              no patch, RepairSpec.v is the specification of that repair).
+              [repaired] = V true true true true;  [before_5478db8], [before_7faf7f9], [before_9b87063], [defective]
+              are historical.
    Hypotheses:  W  lrun_wraps = false — no uint64 cumulative wrapped; C09_no_wrap_if_total_small derives it from the
                    readings alone, for every variant and access type;
                 P  no_prune = true — the 5-minute orphan deadline never passed for the session; only needed for variants
@@ -97,14 +94,14 @@ Theorem C09_report_not_below_floor :
 Proof. exact report_ge_floor. Qed.
 Print Assumptions C09_report_not_below_floor.
 
-(* /repo HEAD behaves exactly like V true false true true on every history without a late Accounting-Response for a
-   released session: all theorems for V carry over to HEAD under [no_late evs = true] *)
-Theorem C09_head_without_late_response :
+(* historical (code before 5478db8): it behaved exactly like /repo HEAD on every history without a late
+   Accounting-Response for a released session *)
+Theorem C09_before_5478db8_without_late_response :
   forall g evs, no_late evs = true ->
-  lrun head g sst0 evs = lrun (V true false true true) g sst0 evs /\
-  lrun_wraps head g sst0 evs = lrun_wraps (V true false true true) g sst0 evs.
+  lrun before_5478db8 g sst0 evs = lrun head g sst0 evs /\
+  lrun_wraps before_5478db8 g sst0 evs = lrun_wraps head g sst0 evs.
 Proof. exact (fun g evs => lrun_no_late true false true true g evs sst0). Qed.
-Print Assumptions C09_head_without_late_response.
+Print Assumptions C09_before_5478db8_without_late_response.
 
 (* repeated notifications are silent, from ANY component state s *)
 Theorem C09_repeated_announce_silent :
@@ -278,22 +275,22 @@ Proof. exists [DHold true; DEv (EActive 5 0); DEv (EReleased (rd 5 9)); DRelease
 Print Assumptions C09_delivered_strict_refuted.
 
 
-(* known finding late-accounting-response-recreates-checkpoint-of-released-session: an Interim is unanswered when the
-   session is released (Stop, checkpoint deleted); its response - acknowledged or failed - arrives afterwards and
-   sendAccountingUpdate writes the checkpoint again; after a restart the ghost entry is pruned with a SECOND Stop
+
+(* ================= historical: fixed in /repo ================= *)
+(* fixed in 5478db8 (late-accounting-response-recreates-checkpoint-of-released-session): an Interim is unanswered when the
+   session was released (Stop, checkpoint deleted); its response - acknowledged or failed - arrived afterwards and
+   sendAccountingUpdate wrote the checkpoint again; after a restart the ghost entry was pruned with a SECOND Stop
    (or a repeated Released sends one) *)
-Theorem C09_ghost_checkpoint_refuted :
-  exists evs, lrun_wraps head false sst0 evs = false /\
-              stops_ok false (snd (lrun head false sst0 evs)) = false /\
-              strictT BClosed (snd (lrun head false sst0 evs)) = false /\
-              stops_ok false (snd (lrun (V true false true true) false sst0 evs)) = true.
+Theorem C09_before_5478db8_ghost_refuted :
+  exists evs, lrun_wraps before_5478db8 false sst0 evs = false /\
+              stops_ok false (snd (lrun before_5478db8 false sst0 evs)) = false /\
+              strictT BClosed (snd (lrun before_5478db8 false sst0 evs)) = false /\
+              stops_ok false (snd (lrun head false sst0 evs)) = true.
 Proof.
   exists [EActive 5 0; ETick (rd 5 100) false; EReleased (Snaps (Some []) None); ELate true; ERestart; EPrune true].
   vm_compute. auto.
 Qed.
-Print Assumptions C09_ghost_checkpoint_refuted.
-
-(* ================= historical: fixed in /repo ================= *)
+Print Assumptions C09_before_5478db8_ghost_refuted.
 (* fixed in 7faf7f9 (pruneOrphanedAcctEntries-drops-accounting-without-stop): the accounting of a session whose restore did
    not arrive within 5 minutes of a restart was dropped without a Stop; when the session is announced again the backend
    saw a second Start without Stop *)
